@@ -343,6 +343,7 @@ impl Monitor for C08 {
             "spends_on_expired_allowance_rejected",
             "spends_at_exact_expiry_height_rejected",
             "spends_one_block_before_expiry_ok",
+            "sends_back_to_the_proxy_itself",
             "increases_ok",
             "grants_in_denominations_spelt_with_capital_letters",
             "decreases_ok",
@@ -422,6 +423,19 @@ impl Monitor for C08 {
                                     break;
                                 }
                             }
+                        }
+                    }
+                }
+            }
+            // now and then the coins are sent back to the proxy's own account: a send like any other
+            if let Op::Execute { msgs } = &mut op {
+                let mut side = h.rng.clone();
+                side.below(1000);
+                for m in msgs.iter_mut() {
+                    if let cosmwasm_std::CosmosMsg::Bank(cosmwasm_std::BankMsg::Send { to_address, .. }) = m {
+                        if side.chance(1, 8) {
+                            *to_address = p.w.contract.to_string();
+                            h.out.count("sends_back_to_the_proxy_itself");
                         }
                     }
                 }
